@@ -55,6 +55,29 @@ CHECKS = {
             "Zero-data writes are treated as malformed input (C08); sub-element offsets and surplus data are outside the statement and "
             "only checked for harmlessness.",
             "DESIGN.md §3 C05"),
+    "C07": ("model_checking",
+            "explicit-state BFS over the closed store graph; from every state every list of 1..N members run bundled and unbundled on "
+            "the real request path; byte-for-byte differential oracle + offset-table check on raw bytes",
+            "From every state of the closed tag-store graph every list of 1..3 members over a 14..20-member alphabet (reads, writes, "
+            "fragmented forms with offsets, attribute services, range/type refusals, unknown tag and attribute, a nested bundle) is "
+            "executed twice on the real simulator - as one Multiple Service Packet and member by member - and compared: member "
+            "replies byte-identical, final stores identical, bundle status 0, offset table exact on the raw bytes; stand-alone "
+            "members are also judged by the array model.",
+            "Members unroutable stand-alone have no CIP reply to compare with; only a non-zero status and no effect is demanded. "
+            "Lists longer than 3 (4 on a sub-alphabet in the thorough tier) are not enumerated.",
+            "DESIGN.md §3 C07"),
+    "C15": ("exploration",
+            "complete product personality x request route path x service on freshly configured real simulators (UCMM subclass and "
+            "main() argument parsing), access-counting Attribute class; exhaustive route-path text grammar vs reference parser",
+            "All 10 personalities (none, simple, five single-segment paths incl. extended port and address link, two two-segment "
+            "paths, empty list) x 13 request route paths (absent, empty, equal, other port/link, longer, shorter, numeric vs address "
+            "link) x 5 services (read, write, Get Attribute Single, bundle, Forward Open), each on a fresh simulator configured both "
+            "through a UCMM subclass and through main()'s --route-path/-S parsing: accept iff the statement's rule says so; a refusal "
+            "must carry an error status, perform zero Attribute accesses (counted through the attribute_class extension point) and "
+            "leave the store unchanged. All route-path texts of 1..2 (3) segments over port/link alphabets in 5 notations are "
+            "compared with the segments they spell.",
+            "No remote routes configured; main() only admits single-segment route paths.",
+            "DESIGN.md §3 C15"),
 }
 
 NOT_YET = "check not built yet in this round (see DESIGN.md build order); not claimed until its check and evidence exist"
